@@ -3,8 +3,10 @@ Decided on spec/ConfigMachine.tla: C15_Error (class and declared path below the 
 conformance step compares ValidationError.ref_path of every rejected assignment, constructor
 keyword and tree load with the path the specification computes from the containment
 structure (item index for configurations in lists, key for dict entries)."""
-from . import cfgmachine
+from . import cfgfamily, cfgmachine
 
 
 def run(tier, seed):
-    return cfgmachine.run_machine("C15", ["C15_Error"], [], tier, seed, focus="C15")
+    out = cfgmachine.run_machine("C15", ["C15_Error"], [], tier, seed, focus="C15")
+    # and on the generated schema family (every schema shape: paths through nested schemas, lists of configurations)
+    return cfgmachine.merge(out, cfgfamily.run_family("C15", ["C15_Error"], [], tier, seed, focus="C15"))
